@@ -1052,7 +1052,8 @@ class UKF:
         # 9.1. Update state estimation
         correction_vector = kalman_gain @ innovation                                # Correction as a rotation vector
         theta = np.linalg.norm(correction_vector)  # Angle of rotation
-        correction_quaternion = Quaternion([np.cos(theta/2.0), *(np.sin(theta/2.0) * correction_vector/theta)])  # Convert to quaternion
+        rotation_axis = correction_vector/theta if theta > 0 else correction_vector     # null correction: identity quaternion
+        correction_quaternion = Quaternion([np.cos(theta/2.0), *(np.sin(theta/2.0) * rotation_axis)])  # Convert to quaternion
         updated_quaternion = predicted_state_mean.product(correction_quaternion)    # Apply correction to predicted state
 
         # 9.2. Update state covariance
